@@ -1,6 +1,9 @@
-import LcdbModel.Model.Lsm
-import LcdbModel.Model.DbIter
+/-
+  C07 -- iterators give a consistent, ordered, complete view in both directions.
+  The theorems live in Props/IterProps.lean (merging iterator, db_iter.c, composition over a database state)
+  and Props/BlockProps.lean (block iterator, seek helpers); this module gathers them for the check.
+-/
+import LcdbModel.Props.IterProps
+import LcdbModel.Props.BlockProps
 namespace Lcdb.C07
-open Lcdb
-
 end Lcdb.C07
